@@ -17,6 +17,7 @@ type Env struct {
 	E, IncE                          *idl.Enum
 	Inner, IncS, U, X                *idl.Struct
 	TdI32, TdE, TdS, TdL, TdTd, IncT *idl.Typedef
+	TdME, TdLE                       *idl.Typedef // typedef'd containers holding enums
 }
 
 func fld(id int32, name string, t *idl.Type, req idl.Req, def *idl.Value) *idl.Field {
@@ -54,6 +55,10 @@ func NewEnv(ns string) *Env {
 	e.Main.Add(e.TdL)
 	e.TdTd = &idl.Typedef{Name: "TdTd", Type: idl.TypedefT(e.TdI32)}
 	e.Main.Add(e.TdTd)
+	e.TdME = &idl.Typedef{Name: "TdME", Type: idl.MapOf(idl.EnumT(e.E), str)}
+	e.Main.Add(e.TdME)
+	e.TdLE = &idl.Typedef{Name: "TdLE", Type: idl.ListOf(idl.EnumT(e.E))}
+	e.Main.Add(e.TdLE)
 	return e
 }
 
@@ -70,6 +75,7 @@ func (e *Env) Leaves() []Named {
 		{"enum", idl.EnumT(e.E)}, {"struct", idl.StructT(e.Inner)}, {"union", idl.StructT(e.U)}, {"exception", idl.StructT(e.X)},
 		{"tdbase", idl.TypedefT(e.TdI32)}, {"tdenum", idl.TypedefT(e.TdE)}, {"tdstruct", idl.TypedefT(e.TdS)}, {"tdcont", idl.TypedefT(e.TdL)}, {"tdtd", idl.TypedefT(e.TdTd)},
 		{"incstruct", idl.StructT(e.IncS)}, {"incenum", idl.EnumT(e.IncE)}, {"inctd", idl.TypedefT(e.IncT)},
+		{"tdmapenum", idl.TypedefT(e.TdME)}, {"tdlistenum", idl.TypedefT(e.TdLE)},
 	}
 }
 
@@ -152,3 +158,62 @@ func (e *Env) Kernels(types []Named, reqs []idl.Req) []*Kernel {
 
 // Program returns the two-file program (main first).
 func (e *Env) Program() *idl.Program { return &idl.Program{Files: []*idl.File{e.Main, e.Inc}} }
+
+// Root is a struct-like used as the root of value vectors.
+type Root struct {
+	Name   string // IDL name (as passed to WriteStructBegin)
+	S      *idl.Struct
+	Kernel *Kernel // nil for hand-written roots
+}
+
+// Shape names the root for violation classes.
+func (r *Root) Shape() string {
+	if r.Kernel != nil {
+		return r.Kernel.Shape + "/" + reqNames[r.Kernel.Req]
+	}
+	return r.Name
+}
+
+// StandardRoots adds to e.Main the kernels over types plus: fields with
+// declared defaults of every base type (optional and default requiredness),
+// a wide struct with implicit / negative / large ids, a recursive struct, and
+// returns them together with the union / exception / inner leaves.
+func (e *Env) StandardRoots(types []Named) []*Root {
+	var roots []*Root
+	for _, k := range e.Kernels(types, []idl.Req{idl.ReqDefault, idl.ReqRequired, idl.ReqOptional}) {
+		roots = append(roots, &Root{Name: k.S.Name, S: k.S, Kernel: k})
+	}
+	i32 := idl.T(idl.I32)
+	defs := []struct {
+		n string
+		t *idl.Type
+		v *idl.Value
+	}{
+		{"bool", idl.T(idl.Bool), idl.VB(true)}, {"byte", idl.T(idl.Byte), idl.VI(7)}, {"i16", idl.T(idl.I16), idl.VI(-3)}, {"i32", i32, idl.VI(100)}, {"i64", idl.T(idl.I64), idl.VI(1 << 40)},
+		{"double", idl.T(idl.Double), idl.VD(2.5)}, {"string", idl.T(idl.String), idl.VS("dflt")}, {"binary", idl.T(idl.Binary), idl.VS("bin")}, {"enum", idl.EnumT(e.E), idl.VE(e.E, e.E.Values[1])},
+		{"list", idl.ListOf(i32), idl.VL(idl.VI(1), idl.VI(2))}, {"map", idl.MapOf(idl.T(idl.String), i32), idl.VM([2]*idl.Value{idl.VS("k"), idl.VI(1)})},
+	}
+	for _, d := range defs {
+		for _, rq := range []idl.Req{idl.ReqOptional, idl.ReqDefault} {
+			s := &idl.Struct{Cat: "struct", Name: fmt.Sprintf("D_%s_%s", d.n, reqNames[rq]), Fields: []*idl.Field{
+				{ID: 1, ExplicitID: true, Name: "f", Type: d.t, Req: rq, Default: d.v}, {ID: 2, ExplicitID: true, Name: "tail", Type: i32}}}
+			e.Main.Add(s)
+			roots = append(roots, &Root{Name: s.Name, S: s, Kernel: &Kernel{S: s, Shape: "default_" + d.n, T: d.t, Req: rq}})
+		}
+	}
+	wide := &idl.Struct{Cat: "struct", Name: "Wide", Fields: []*idl.Field{
+		{Name: "a", Type: i32}, {Name: "b", Type: idl.T(idl.String), Req: idl.ReqOptional}, {ID: -1, ExplicitID: true, Name: "neg", Type: i32, Req: idl.ReqOptional},
+		{ID: 300, ExplicitID: true, Name: "big", Type: idl.T(idl.I64), Req: idl.ReqRequired}, {Name: "after", Type: idl.StructT(e.Inner), Req: idl.ReqOptional}}}
+	e.Main.Add(wide)
+	node := &idl.Struct{Cat: "struct", Name: "Node", Fields: []*idl.Field{{ID: 1, ExplicitID: true, Name: "v", Type: i32}}}
+	node.Fields = append(node.Fields, &idl.Field{ID: 2, ExplicitID: true, Name: "next", Type: idl.StructT(node), Req: idl.ReqOptional}, &idl.Field{ID: 3, ExplicitID: true, Name: "kids", Type: idl.ListOf(idl.StructT(node)), Req: idl.ReqOptional})
+	e.Main.Add(node)
+	// nine required fields: the bitset of required fields crosses a byte boundary
+	req9 := &idl.Struct{Cat: "struct", Name: "Req9"}
+	for i := 1; i <= 9; i++ {
+		req9.Fields = append(req9.Fields, &idl.Field{ID: int32(i), ExplicitID: true, Name: fmt.Sprintf("r%d", i), Type: i32, Req: idl.ReqRequired})
+	}
+	e.Main.Add(req9)
+	roots = append(roots, &Root{Name: "Wide", S: wide}, &Root{Name: "Node", S: node}, &Root{Name: "Req9", S: req9}, &Root{Name: "U", S: e.U}, &Root{Name: "X", S: e.X}, &Root{Name: "Inner", S: e.Inner})
+	return roots
+}
